@@ -1012,6 +1012,16 @@ fn corpus(uni: &Universe) -> Vec<String> {
     for l in ["seed 0 0 C", "seed 0 3 C", "interval 0", "deliver 1", "dump"] {
         v.push(l.into());
     }
+    // a register fetch that merges to nothing leaves its in-flight entry; after FETCH_TIMEOUT the honest holder is
+    // reported as failed and its next (genuinely new) advertisement is dropped for that round
+    mesh2(&mut v, &[2, 4]);
+    for l in [
+        "seed 0 2 R0.1", "seed 1 2 R0.1.2", "seed 0 4 T0", "interval 0", "deliver 1", "deliver 2", "deliver 3", "deliver 4", "deliver 5", "tick 1 25", "tick 0 50",
+        "seed 0 4 T0.1", "interval 0", "deliver 6", "tick 0 50", "tick 1 50", "interval 0", "deliver 7", "deliver 8", "deliver 9", "interval 1", "deliver 10", "deliver 11",
+        "deliver 12", "dump",
+    ] {
+        v.push(l.into());
+    }
     v
 }
 
